@@ -55,11 +55,11 @@ def opens():
 
 
 def seeded():
-    out = ["| seed | the change | needs, to manifest | caught by | how it is reported |", "|---|---|---|---|---|"]
+    out = ["| seed | the change | needs, to manifest | caught by | how it is reported | history |", "|---|---|---|---|---|---|"]
     for mf in sorted(glob.glob(os.path.join(ROOT, "seeded", "*", "meta.json"))):
         m = json.load(open(mf))
-        out.append("| %s | %s | %s | %s | %s |" % (os.path.basename(os.path.dirname(mf)), m.get("summary", "").replace("|", "/")[:300], m.get("needs_to_manifest", "").replace("|", "/")[:300],
-                                                m.get("caught_by", "—"), m.get("reported_as", "").replace("|", "/")[:260]))
+        out.append("| %s | %s | %s | %s | %s | %s |" % (os.path.basename(os.path.dirname(mf)), m.get("summary", "").replace("|", "/")[:300], m.get("needs_to_manifest", "").replace("|", "/")[:300],
+                                                     m.get("caught_by", "—"), m.get("reported_as", "").replace("|", "/")[:260], m.get("history", "round 1").replace("|", "/")))
     return "\n".join(out)
 
 
